@@ -189,7 +189,7 @@ CHECKS = {
     },
     "C07": {
         "level": "exploration",
-        "parts": [{"gen": "C07", "quick": 256, "thorough": 2560}, {"gen": "C07udp", "quick": 27, "thorough": 270}],
+        "parts": [{"gen": "C07", "quick": 256, "thorough": 2560}, {"gen": "C07udp", "quick": 27, "thorough": 270}, {"gen": "C07srv", "quick": 152, "thorough": 1520}],
         "rule": "one run = real client + real server of one cell under a barrage, with the process-wide panic monitor as the oracle: (a) exhaustive short strings to the server's port and to the client's local port - the empty string, every 1-byte string and every 2-byte string whose first byte lies in this plan's block of 16 "
                 "(16 rounds x 16 cells cover all first bytes for every cell), 3- and 4-byte strings over a reduced alphabet, half of them followed by quiet, all by EOF; (b) random and structure-aware strings (56 bytes + CRLF for Trojan, lengths around the salt / header sizes) in 1-3 segments; "
                 "(c) valid handshakes closed at a drawn byte; (d) authenticated but malformed frames from the reference sender (2022: bad address type, truncated address, padding beyond the header, no padding length, empty header, domain length beyond the header, declared length beyond the frame, non-UTF-8 domain; legacy, VMess and Trojan analogues incl. bad command, short header, bad checksum); "
